@@ -41,6 +41,7 @@ HARNESSES = [
     dict(name=H + "kc07::c07_dispatch_80_ff", file="kani/h_c07.rs", ids=r"^C07/exec/", fn="Cpu::fetch, Cpu::exec", props=["C07", "C15"]),
     dict(name=H + "kc07::c07_mov_b_rejects_movfpe_movtpe", file="kani/h_c07.rs", ids=r"^C07/mov_b/", fn="Cpu::mov_b, mov_b_abs_16_or_24", props=["C07", "C15"]),
     dict(name=H + "kc07::c07_stc_w_disp24_rejects_ldc", file="kani/h_c07.rs", ids=r"^C07/stc_w_disp24/", fn="Cpu::stc_w_disp24", props=["C07", "C15"]),
+    dict(name=H + "kc07::c15_unimplemented_opcode_at_any_code_address", file="kani/h_c07.rs", ids=r"^C15/exec/", fn="Cpu::exec (unimpl! exits)", props=["C15"]),
     dict(name=H + "kc15::c15_fetch_any_pc", file="kani/h_c15.rs", ids=r"^C15/fetch/", fn="Cpu::fetch", props=["C15"]),
     dict(name=T + "c15_timer_any_tcr_write", file="kani/h_c17.rs", ids=r"^C15/timer/", fn="Timer8_0::update_tcr (any byte), Timer8_0::update_timer8_0", props=["C15"]),
     dict(name=H + "kc19::c19_cost_formula", file="kani/h_c19.rs", ids=r"^C19/calc_state_with_addr/", fn="Cpu::calc_state_with_addr, Cpu::get_wait_state, Bus::get_area_index, Bus::check_dram_area, Bus::read", props=["C19", "C15"]),
